@@ -251,9 +251,9 @@ func (c *Ctx) sqlAnalysis() *sqlResult {
 				}
 				sub := ctxName
 				if callee.Parent() == nil {
-					sub = ctxName + ">" + callee.Name()
+					sub = ctxName + ">" + engine.ShortName(callee)
 					if rn := engine.RecvNamed(callee); rn != nil {
-						sub = ctxName + ">" + rn.Obj().Name() + "." + callee.Name()
+						sub = ctxName + ">" + rn.Obj().Name() + "." + engine.ShortName(callee)
 					}
 				}
 				walk(callee, fr.Bind(callee, cs.Instr), stack, sub)
